@@ -3,7 +3,7 @@
   every earlier one: `PqRoom` ("fewer than 2³¹ − 1 puts so far": the growth limit of the hashheap, far below the 2⁶⁴
   handles) is stated once, for the final state.
 -/
-import CimbaModel.Sim.S2Cmd
+import CimbaModel.Sim.S1Frame2
 import CimbaModel.Sim.S3Clock
 
 namespace CimbaModel.Sim.S4
@@ -127,8 +127,39 @@ theorem PqMono.setRecording (w : World) (kind idx : Nat) (on : Bool) : PqMono w 
     · exact (PqMono.modify idx (fun x => { x with recording := on }) (fun _ => rfl)).trans (PqMono.recordPQ _ idx)
     · exact (PqMono.recordPQ _ idx).trans (PqMono.modify idx (fun x => { x with recording := on }) (fun _ => rfl))
 
-theorem PqMono.execCmd (w : World) (p : Pid) (c : Cmd) : PqMono w (execCmd w p c).1 := by
-  have hfp := execCmd_fp w p c
+@[simp] theorem acquireStep_pqs (w : World) (p : Pid) (r : Nat) : (Sim.acquireStep w p r).1.pqs = w.pqs := by
+  unfold Sim.acquireStep
+  repeat' split
+  all_goals first | rfl | (simp; done)
+
+/-- the commands that do not name a priority queue leave `pqs` alone -/
+theorem execCmd_pqs (w : World) (p : Pid) (c : Cmd)
+    (hc : (∀ k, c ≠ .pqGet k) ∧ (∀ k o pr v, c ≠ .pqPut k o pr v) ∧ (∀ k v, c ≠ .pqCancel k v) ∧ (∀ k v pr, c ≠ .pqReprio k v pr) ∧
+      (∀ k i, c ≠ .recStart k i) ∧ (∀ k i, c ≠ .recStop k i)) : (Sim.execCmd w p c).1.pqs = w.pqs := by
+  obtain ⟨h1, h2, h3, h4, h5, h6⟩ := hc
+  cases c
+  case pqGet k => exact absurd rfl (h1 k)
+  case pqPut k o pr v => exact absurd rfl (h2 k o pr v)
+  case pqCancel k v => exact absurd rfl (h3 k v)
+  case pqReprio k v pr => exact absurd rfl (h4 k v pr)
+  case recStart k i => exact absurd rfl (h5 k i)
+  case recStop k i => exact absurd rfl (h6 k i)
+  case prioSet q v =>
+    simp only [Sim.execCmd]
+    split
+    · rfl
+    · dsimp only
+      fold_world; fold_world; rfl
+  case preempt r =>
+    simp only [Sim.execCmd]
+    repeat' split
+    all_goals first | rfl | (simp; done)
+  all_goals (simp only [Sim.execCmd]; first | frame_close | (repeat' split; all_goals first | rfl | (simp; done)))
+
+theorem PqMono.execCmd (w : World) (p : Pid) (c : Cmd) : PqMono w (Sim.execCmd w p c).1 := by
+  by_cases hc : (∀ k, c ≠ .pqGet k) ∧ (∀ k o pr v, c ≠ .pqPut k o pr v) ∧ (∀ k v, c ≠ .pqCancel k v) ∧ (∀ k v pr, c ≠ .pqReprio k v pr) ∧
+      (∀ k i, c ≠ .recStart k i) ∧ (∀ k i, c ≠ .recStop k i)
+  · exact PqMono.of_eq (execCmd_pqs w p c hc)
   cases c
   case pqGet k => simp only [Sim.execCmd]; split; exact PqMono.refl w; exact PqMono.pqGetLoop w p k
   case pqPut k obj pri v => simp only [Sim.execCmd]; split; exact PqMono.refl w; exact PqMono.pqPutLoop w p k obj pri v
@@ -161,10 +192,9 @@ theorem PqMono.execCmd (w : World) (p : Pid) (c : Cmd) : PqMono w (execCmd w p c
         · exact PqMono.of_eq (by simp)
   case recStart kind idx => simp only [Sim.execCmd]; exact PqMono.setRecording w kind idx true
   case recStop kind idx => simp only [Sim.execCmd]; exact PqMono.setRecording w kind idx false
-  all_goals exact PqMono.of_eq (hfp.2.2.2.2.1 rfl)
+  all_goals (exfalso; apply hc; refine ⟨?_, ?_, ?_, ?_, ?_, ?_⟩ <;> intros <;> (intro h; cases h))
 
-theorem PqMono.resumeFrame (w : World) (p : Pid) (f : Frame) (sig : Int) : PqMono w (resumeFrame w p f sig).1 := by
-  have hfp := resumeFrame_fp w p f sig
+theorem PqMono.resumeFrame (w : World) (p : Pid) (f : Frame) (sig : Int) : PqMono w (Sim.resumeFrame w p f sig).1 := by
   cases f
   case pqGet k =>
     simp only [Sim.resumeFrame]
@@ -180,7 +210,7 @@ theorem PqMono.resumeFrame (w : World) (p : Pid) (f : Frame) (sig : Int) : PqMon
     · split
       · exact (PqMono.of_eq (by simp)).trans (PqMono.pqPutLoop _ p k obj pri v)
       · exact PqMono.of_eq (by simp)
-  all_goals exact PqMono.of_eq (hfp.2.2.2.2.1 rfl)
+  all_goals (apply PqMono.of_eq; simp only [Sim.resumeFrame]; first | frame_close | (repeat' split; all_goals first | rfl | (simp; done)))
 
 theorem PqMono.runScript : ∀ (fuel : Nat) (w : World) (p : Pid), PqMono w (runScript fuel w p) := by
   intro fuel
